@@ -137,7 +137,7 @@ CHECKS = {
         exhaustive_note="per delivered batch: positions x fault kinds as described; not exhaustive over batches",
         assumptions=HIST_ASSUME,
         eval_counter="fault_deliveries",
-        jobs=[dict(test="TestC16", quick=T(8, 8), thorough=T(16, 40, 0, 3000))],
+        jobs=[dict(test="TestC16", quick=T(8, 12), thorough=T(16, 40, 0, 3000))],
     ),
     "C12": dict(
         level="exploration",
